@@ -355,6 +355,7 @@ def run(tier, seed):
                     jobs.append((size, hk, 8, sub, 32))
     sh = core.parallel(lhenum_job, exe=bdir + "/lhenum", jobs=jobs)
     chk.absorb(sh)
+    os.environ["VF_RECORD_SKIP"] = r"OLONGRUN \d{5,}"   # (not in the memcheck sample: 10^5 members and 10^6 hash probes under valgrind)
     rd = core.record_dir(PID) if tier == "thorough" else None
     sh = core.parallel(churn_shard, seed=seed, tier=tier, exe=bdir + "/jcdrv", nhist=3840 if tier == "quick" else 16000)
     chk.absorb(sh)
